@@ -5,6 +5,7 @@ package ast
 import (
 	"encoding/json"
 	"fmt"
+	"math/rand"
 	"os"
 	"reflect"
 	"regexp"
@@ -393,8 +394,143 @@ func judge(c *cas) *core.Verdict {
 	return v
 }
 
+// observed: the filing of the node's substatements as indices (names are x<i>), and whether
+// every parent link, statement reference, position and the node's own statement are right.
+func observed(n yang.Node, r rendered) (fields map[string][]int, exts []int, links bool) {
+	fields, exts, links = map[string][]int{}, []int{}, true
+	idxOf := func(name string) int {
+		i, err := strconv.Atoi(strings.TrimSpace(strings.TrimPrefix(name, "x")))
+		if err != nil {
+			links = false
+			return 0
+		}
+		return i
+	}
+	v := reflect.ValueOf(n).Elem()
+	t := v.Type()
+	for i := 0; i < t.NumField(); i++ {
+		tag := strings.Split(t.Field(i).Tag.Get("yang"), ",")[0]
+		if tag == "" || tag == "Name" || tag == "Statement" || tag == "Parent" || tag == "Ext" {
+			continue
+		}
+		for _, c := range childByKw(n, tag) {
+			idx := idxOf(c.NName())
+			st := c.Statement()
+			if c.ParentNode() != n || st == nil || st.Keyword != tag || st.Argument != c.NName() ||
+				st.Location() != fmt.Sprintf("f.yang:%d:3", r.kidLine0+idx) {
+				links = false
+			}
+			fields[tag] = append(fields[tag], idx)
+		}
+	}
+	for _, e := range n.Exts() {
+		exts = append(exts, idxOf(e.Argument))
+	}
+	if st := n.Statement(); st == nil || st.Location() != fmt.Sprintf("f.yang:%d:%d", r.nodeLine, r.nodeCol) {
+		links = false
+	}
+	return
+}
+
+// gen: one wide random node (direction B), judged by AstTrace.tla.
 func gen(body []byte) *core.Verdict {
-	return &core.Verdict{OK: true, Out: true}
+	var q struct {
+		Seed int64
+		Tid  int
+	}
+	json.Unmarshal(body, &q)
+	rng := rand.New(rand.NewSource(q.Seed*7919 + int64(q.Tid)))
+	var types []string
+	for t := range pathTo {
+		if t != "Element" && t != "Value" && len(gram[t]) > 0 {
+			types = append(types, t)
+		}
+	}
+	sort.Strings(types)
+	c := &cas{Ptype: types[rng.Intn(len(types))], Pkw: "-"}
+	if rng.Intn(4) == 0 {
+		c.Ptype = []string{"Module", "Container", "Grouping", "List"}[rng.Intn(4)] // the types with the most children
+	}
+	if c.Ptype == "Module" {
+		c.Pkw = []string{"module", "submodule"}[rng.Intn(2)]
+	}
+	var many, one []string
+	for _, f := range gram[c.Ptype] {
+		req := f.Required || (c.Pkw != "-" && f.RequiredFor == c.Pkw)
+		foreign := c.Pkw != "-" && f.RequiredFor != "" && f.RequiredFor != c.Pkw
+		switch {
+		case req:
+			if rng.Intn(25) != 0 { // now and then a mandatory substatement is missing
+				c.Kids = append(c.Kids, f.Kw)
+			}
+		case foreign:
+		case f.Mult == "many":
+			many = append(many, f.Kw)
+		default:
+			one = append(one, f.Kw)
+		}
+	}
+	sort.Strings(many)
+	sort.Strings(one)
+	n := rng.Intn(28)
+	faulty := rng.Intn(5) == 0
+	used := map[string]bool{}
+	for i := 0; i < n; i++ {
+		switch r := rng.Intn(20); {
+		case r < 5:
+			c.Kids = append(c.Kids, []string{"ex:t", "ex:Name", "ex:type"}[rng.Intn(3)])
+		case r < 8 && len(one) > 0:
+			k := one[rng.Intn(len(one))]
+			if used[k] && !faulty {
+				continue
+			}
+			used[k] = true
+			c.Kids = append(c.Kids, k)
+		case r == 8 && faulty:
+			c.Kids = append(c.Kids, []string{"zz", "key", "Name", "Parent"}[rng.Intn(4)])
+		case len(many) > 0:
+			c.Kids = append(c.Kids, many[rng.Intn(len(many))])
+		}
+	}
+	rng.Shuffle(len(c.Kids), func(i, j int) { c.Kids[i], c.Kids[j] = c.Kids[j], c.Kids[i] })
+	if c.Kids == nil {
+		c.Kids = []string{}
+	}
+	v := &core.Verdict{OK: true, Class: "generated", NT: len(c.Kids) >= 13}
+	r := render(c)
+	ms := yang.NewModules()
+	err := ms.Parse(r.text, "f.yang")
+	ev := map[string]any{"ev": "built", "ptype": c.Ptype, "pkw": c.Pkw, "kids": c.Kids, "ok": err == nil,
+		"fields": map[string][]int{}, "exts": []int{}, "links": true}
+	if err == nil {
+		var n yang.Node
+		if m := ms.Modules["m"]; m != nil {
+			n = m
+		} else if m := ms.SubModules["m"]; m != nil {
+			n = m
+		}
+		for _, s := range r.path {
+			if n == nil {
+				break
+			}
+			if cs := childByKw(n, s.kw); len(cs) > 0 {
+				n = cs[len(cs)-1]
+			} else {
+				n = nil
+			}
+		}
+		if n == nil {
+			ev["links"] = false
+		} else {
+			ev["fields"], ev["exts"], ev["links"] = observed(n, r)
+		}
+	}
+	b, _ := json.Marshal(ev)
+	v.Events = append(v.Events, json.RawMessage(fmt.Sprintf(`{"ev":"reset","tid":%d}`, q.Tid)), b)
+	if q.Tid <= 2 {
+		v.Sample = map[string]any{"direction": "B", "yang": r.text, "built": err == nil}
+	}
+	return v
 }
 
 func check(r *core.Run) {
@@ -402,12 +538,17 @@ func check(r *core.Run) {
 	if r.Tier == "thorough" {
 		cfg = "Ast_thorough.cfg"
 	}
-	r.Rule = "A: for each of the 37 node types reachable from module (and for top-level statements of 7 kinds): every sequence of substatements up to the bound over (its legal children + an unknown keyword, two prefixed keywords, a keyword legal elsewhere, the builder's meta field names Name/Statement/Parent/Ext), each wrapped in the minimal legal path from module or submodule; parsed by Modules.Parse and projected by reflection (field -> child names in order, parent link, statement reference and position, kind, extensions) and compared with Ast.tla's outcome. Non-trivial = at least two substatements."
+	r.Rule = "A: for each of the 37 node types reachable from module (and for top-level statements of 7 kinds): every sequence of substatements up to the bound over (its legal children + an unknown keyword, two prefixed keywords, a keyword legal elsewhere, the builder's meta field names Name/Statement/Parent/Ext), each wrapped in the minimal legal path from module or submodule; parsed by Modules.Parse and projected by reflection (field -> child names in order, parent link, statement reference and position, kind, extensions) and compared with Ast.tla's outcome. B: seeded random wide nodes (up to ~30 substatements of the node type's legal children with extension statements in between, now and then a duplicate, unknown or missing one) built by the library, the observed filing judged by AstTrace.tla (built exactly when fault-free; one-to-one, source order, links). Non-trivial = at least two substatements (B: at least 13)."
 	r.Exhaustive = true
-	r.Assumptions = []string{"the grammar table is the frozen extraction of the pinned tree's struct tags (specs/grammar.json), so a tag that changes disagrees with it", "direction B is covered by C18/C01 generators that mutate statement trees; this check is exhaustive replay only"}
+	r.Assumptions = []string{"the grammar table is the frozen extraction of the pinned tree's struct tags (specs/grammar.json), so a tag that changes disagrees with it", "bounded sequences in direction A; direction B samples wide nodes"}
 	core.CaseSuffix = `,"prop":"C03"}`
 	r.DirectionA("ast", core.TLCOpts{Module: "Ast", Cfg: cfg, Workers: 16}, nil)
 	core.CaseSuffix = ""
+	nB := 600
+	if r.Tier == "thorough" {
+		nB = 20000
+	}
+	r.DirectionB("ast", nB, core.TLCOpts{Module: "AstTrace", Cfg: "AstTrace.cfg", Timeout: 0, HeapGB: 8})
 }
 
 // Semantic is the C16 part: positions named by build errors for single-fault nodes.
